@@ -12,7 +12,7 @@ LEVEL = 'exploration'
 RULE = ('operator x monitor-kind matrix: every operator alone and nested under/above every other operator (<=2 operators, unbounded and [0,1] variants), '
         'every arithmetic operator in a predicate, x {discrete offline, discrete online, discrete online pastified, dense offline, dense online, dense online '
         'pastified} x data shapes {1 sample, 3 samples} x {plain, a declared variable z that the formula does not use (with and without data), a supplied '
-        'variable u that is not declared, variables listed in reverse order, an object that held and evaluated another specification before and was given the text with spec.spec = ...; parse() again}; supported combinations must return normally; unsupported ones (unbounded '
+        'variable u that is not declared, variables listed in reverse order, a data set (same dict and list objects) evaluated twice and on a second object, an object that held and evaluated another specification before and was given the text with spec.spec = ...; parse() again}; supported combinations must return normally; unsupported ones (unbounded '
         'future online, prev/next/s_prev/s_next/rise/fall in dense time, until in the dense online monitor) must raise RTAMTException at parse(), '
         'pastify() or the first evaluation - never return a value, never raise another exception type; non-trivial = unsupported combination, or a '
         'supported one with a non-plain data shape')
@@ -45,6 +45,14 @@ def formula_set(tier):
     # operator inside the delayed operand must still be rejected)
     sib = F.sibling_formulas()
     fs += sib[::4] if tier == 'quick' else sib
+    # a bare variable under a bounded operator whose window is longer than the short traces, next to a predicate / arithmetic node that reads the
+    # same variable (one list read by two nodes)
+    for op in ('always', 'eventually', 'once', 'historically'):
+        for I in ((0, 1), (0, 3), (2, 4)):
+            b = (op, I, X)
+            for partner in (('pred', '>=', X, Y), ('pred', '>=', ('+', X, Y), F.C0), ('pred', '<=', ('abs', X), F.C1)):
+                fs += [('and', b, partner), ('or', partner, b)]
+            fs += [('pred', '>=', ('+', b, X), F.C0), ('until', (0, 1), ('pred', '>=', X, F.C0), b)]
     return fs
 
 
@@ -55,7 +63,7 @@ def shards(tier):
 
 
 PLANS = (('dt_off', False), ('dt_on', False), ('dt_on', True), ('ct_off', False), ('ct_on', False), ('ct_on', True))
-SHAPES = ('plain', 'unused_declared_with_data', 'unused_declared_no_data', 'undeclared_supplied', 'reversed', 'reevaluate_shorter', 'unused_subspec', 'reparsed')
+SHAPES = ('plain', 'unused_declared_with_data', 'unused_declared_no_data', 'undeclared_supplied', 'reversed', 'reevaluate_shorter', 'unused_subspec', 'reparsed', 'dataset_reused')
 
 
 def supported(f, kind, pastify):
@@ -145,6 +153,18 @@ def run_case(case):
             k, r = impl.outcome(impl.dt_evaluate, spec, wl)
             if k != 'ok':
                 return k, r, 'evaluate'
+        if shape == 'dataset_reused':
+            # the caller keeps its data set (one dict, one list per column) and evaluates it twice, the second time on a second fresh object as well
+            d = dict({'time': list(range(n))}, **{v: list(w[v]) for v in data_vars})
+            k, r = impl.outcome(spec.evaluate, d)
+            if k != 'ok':
+                return k, r, 'evaluate'
+            k, r = impl.outcome(spec.evaluate, d)
+            if k != 'ok':
+                return k, r, 'second evaluate() of the same data set'
+            k2, spec2 = impl.outcome(impl.build, kind, case['spec'], decl or ['x'], pastify=False, subspecs=subs)
+            k, r = impl.outcome(spec2.evaluate, d) if k2 == 'ok' else (k2, spec2)
+            return k, r, 'evaluate() of the same data set on a second specification object'
         k, r = impl.outcome(impl.dt_evaluate, spec, w)
         return k, r, 'evaluate'
     if kind == 'dt_on':
@@ -165,6 +185,13 @@ def run_case(case):
             k, r = impl.outcome(impl.ct_evaluate, spec, kinds.grid_signal(wl))
             if k != 'ok':
                 return k, r, 'evaluate'
+        if shape == 'dataset_reused':
+            args = [[v, [[t, x] for t, x in sig[v]]] for v in data_vars]
+            k, r = impl.outcome(spec.evaluate, *args)
+            if k != 'ok':
+                return k, r, 'evaluate'
+            k, r = impl.outcome(spec.evaluate, *args)
+            return k, r, ('evaluate' if k == 'ok' else 'second evaluate() of the same data set')
         k, r = impl.outcome(impl.ct_evaluate, spec, sig)
         return k, r, 'evaluate'
     for i in range(n):
